@@ -31,7 +31,7 @@ def rgba_of(spec):
             if isinstance(a, float):
                 if not 0.0 <= a <= 1.0:
                     raise ValueError(spec)
-                a = a * 255.0
+                a = int(round(a * 255.0))
             elif not 0 <= a <= 255:
                 raise ValueError(spec)
             return tuple(spec[:3]) + (a,)
@@ -95,4 +95,7 @@ def with_alpha(draw, none_ok=True):
     if k < 9:
         d = [draw(st.integers(0, 15)) for _ in range(4)]
         return '#%x%x%x%x' % tuple(d)
+    if draw(st.integers(0, 2)) == 0:
+        # alpha as float 0.0 .. 1.0 (multiples of 1/255 and a few other values)
+        return list(c) + [draw(st.sampled_from([0.0, 1.0, 0.5, 0.25, 0.8, 0.2, 128 / 255, 1 / 255]))]
     return list(c) + [a]
